@@ -557,7 +557,7 @@ where
 //@ loop 1
     invariant
         self.graph_wf(), self.vertices@.contains_key(root), self.vertices@.contains_key(node),
-        seq_lists_set_ref(it.seq(), self.successors@[node]@),
+        /*@iterates_successors*/ seq_lists_set_ref(it.seq(), self.successors@[node]@),
         order@ == order0.push(node), visited@ == visited0.insert(node),
         !visited0.contains(node),
         order@.len() > 0, order@[order@.len() - 1] == node,
@@ -1518,12 +1518,12 @@ where
     }
 //@ loop 1
     invariant
-        self.graph_wf(), self.vertices@.contains_key(start_index),
+        self.graph_wf(), /*@root_is_vertex*/ self.vertices@.contains_key(start_index),
         graph.graph_wf(), graph.vertices@.dom() == self.vertices@.dom(),
         predecessors@.dom() == self.vertices@.dom(),
         forall|v: usize, u: usize| #![trigger predecessors@[v]@.contains(u)] self.vertices@.contains_key(v) ==> (predecessors@[v]@.contains(u) <==> path_plus(self.edges@.dom(), u, v)),
         acyc_build_inv(self.vertices@.dom(), self.edges@.dom(), graph.edges@.dom(), deq, visited@, start_index),
-        acyc_queue_ok(self.vertices@.dom(), self.edges@.dom(), graph.edges@.dom(), queue@, visited@, start_index),
+        /*@queue_ok*/ acyc_queue_ok(self.vertices@.dom(), self.edges@.dom(), graph.edges@.dom(), queue@, visited@, start_index),
         forall|a: usize, b: usize| #![trigger self.edges@.contains_key((a, b))] visited@.contains(a) && self.edges@.contains_key((a, b))
             ==> (visited@.contains(b) || queue@.contains(b)) && (graph.edges@.contains_key((a, b)) || path_plus(self.edges@.dom(), b, a)),
         visited@.contains(start_index) || queue@.contains(start_index),
